@@ -103,7 +103,8 @@ def parse_store(p):
 
 
 class Line:
-    __slots__ = ("raw", "frames", "pushes", "calls", "cache", "store", "sess", "plain", "me", "meframes", "mesess", "fnd", "fndsess")
+    __slots__ = ("raw", "frames", "pushes", "calls", "cache", "store", "sess", "plain", "me", "meframes", "mesess", "fnd", "fndsess",
+                 "inflight", "held")
 
     def __init__(self, raw):
         self.raw = raw
@@ -111,6 +112,8 @@ class Line:
         # the users' `me` topics are kept apart: caches under the user's name, frames which name the topic `me`, attachments
         self.me, self.meframes, self.mesess = {}, [], {}
         self.fnd, self.fndsess = {}, {}       # … and their search topics (`fnd:` + the user's name)
+        self.inflight = set()                 # sessions with a {sub} or {leave} in flight (crossings)
+        self.held = None                      # what is queued and not processed yet (crossings)
         self.plain = None
         if " | " not in raw and not raw.startswith("calls="):
             self.plain = raw
@@ -133,8 +136,13 @@ class Line:
                 self.store[s["name"]] = s
             elif p.startswith("push "):
                 self.pushes.append(_kv(p.split(" ")[1:]))
+            elif p.startswith("held "):
+                self.held = p[5:]
             elif re.match(r"^S\d+\{", p):
                 sid, rest = p.split("{", 1)
+                if rest.endswith("*"):
+                    self.inflight.add(sid)
+                    rest = rest[:-1]
                 names = [x for x in rest.rstrip("}").split(",") if x]
                 self.sess[sid] = set(x for x in names if not re.fullmatch(r"U\d+", x) and not x.startswith("fnd:"))
                 self.mesess[sid] = set(x for x in names if re.fullmatch(r"U\d+", x))
@@ -173,6 +181,65 @@ class Case:
         # key P:<a>:<b>. The monitors work on keys: a request to `U2` by U1 is read as a request to P:U1:U2, and a frame naming
         # `U2` which goes to a session of U1 is read as a frame about P:U1:U2. A frame that names the topic by anything else
         # (the recipient's own name, no name) is left as it is, so that the naming rules of the monitors see it.
+        # Crossings: a request which was held (`hold …`) is judged on the line where the hub or its topic takes it off the queue
+        # (`hubstep`, `tstep T reg|unreg|pub`): that line gets the text of the request. What a line of a crossing is, is kept in
+        # `cross` (hold, hub, handled, step, exit, settle, xdrop); `held_reqs` lists every request which was queued, with the lines
+        # where it was queued and handled.
+        self.cross = {}
+        self.held_reqs = []        # dicts: kind, sid, topic, at (index of the hold line), done (index of the line which handled it, or None)
+        ops = list(ops)
+        hubq, queues = [], {}
+        for i, o in enumerate(ops):
+            w = o.split(" ")
+            ln = self.lines[i] if i < len(self.lines) else None
+            if ln is None:
+                continue
+            answered = lambda sid, t: any(s_ == sid and f.startswith("ctrl ") and f.split(" ")[2:3] == [t] for s_, f in ln.frames + ln.meframes)
+            if w[0] == "hold":
+                self.cross[i] = "hold"
+                if ln.plain is None and len(w) > 3 and w[1] in ("sub", "leave", "pub") and not answered(w[2], w[3]):
+                    r = dict(kind=w[1], sid=w[2], topic=w[3], text=" ".join(w[1:]), at=i, done=None)
+                    self.held_reqs.append(r)
+                    (hubq if w[1] == "sub" else queues.setdefault(w[3], {}).setdefault(w[1], [])).append(r)
+            elif w[0] == "hubstep":
+                self.cross[i] = "hub"
+                for r in hubq:
+                    if ln.plain is None and answered(r["sid"], r["topic"]):
+                        r["done"] = i          # the hub has answered it (the topic is inactive, or could not be loaded)
+                    else:
+                        queues.setdefault(r["topic"], {}).setdefault("sub", []).append(r)
+                hubq = []
+            elif w[0] == "tstep" and len(w) > 2:
+                self.cross[i] = "exit" if w[2] == "exit" else "step"
+                kind = {"reg": "sub", "unreg": "leave", "pub": "pub"}.get(w[2])
+                if ln.plain is None and kind and queues.get(w[1], {}).get(kind):
+                    r = queues[w[1]][kind].pop(0)
+                    r["done"] = i
+                    ops[i] = r["text"]
+                    self.cross[i] = "handled"
+                elif ln.plain is None and w[2] == "exit":
+                    # a topic which terminates answers what is still queued for it
+                    for k in ("sub", "leave", "pub"):
+                        for r in queues.get(w[1], {}).get(k, []):
+                            if answered(r["sid"], r["topic"]):
+                                r["done"] = i
+                    queues.pop(w[1], None)
+            elif w[0] == "settle":
+                self.cross[i] = "settle"
+                for r in hubq + [r for q in queues.values() for l in q.values() for r in l]:
+                    if ln.plain is None and answered(r["sid"], r["topic"]):
+                        r["done"] = i
+                hubq, queues = [], {}
+            elif w[0] == "drop" and len(w) > 1 and w[1] in next((l.inflight for l in reversed(self.lines[:i]) if l.plain is None), set()):
+                # the connection drops with a request in flight: Session.cleanUp waits for it - everything settles - and nothing reaches
+                # the session any more
+                self.cross[i] = "xdrop"
+                ops[i] = "xdrop " + w[1]
+                for r in hubq + [r for q in queues.values() for l in q.values() for r in l]:
+                    r["done"] = i
+                hubq, queues = [], {}
+            elif w[0] in ("reset", "restart"):
+                hubq, queues = [], {}
         self.ops = []
         self.via_chn = set()       # indices of requests made under the `chn` spelling
         self.p2p_arg = {}          # index -> the name the client used
@@ -527,6 +594,10 @@ def mon_C03(case):
         acks = [f for sid, f in ln.frames if sid == w[1] and f.startswith("ctrl 202 ")]
         c = pre.cache.get(t)
         attached = t in pre.sess.get(w[1], set())
+        # a publish which was held in the topic's queue was sent by a session which was attached then (Session.publish checked): the
+        # topic judges the author and its own state when it takes the message off the queue
+        crossed = case.cross.get(i) == "handled"
+        attached = attached or crossed
         ok = False
         why = "the session is not attached"
         if act is None:
@@ -541,7 +612,7 @@ def mon_C03(case):
                 why = "the author is not subscribed"
             elif not has(u["want"], "W") or not has(u["given"], "W"):
                 why = f"the author's modes are {u['want']}/{u['given']}"
-            elif c["sess"].get(w[1]) is None:
+            elif c["sess"].get(w[1]) is None and not crossed:
                 why = "the session is not attached"
             else:
                 ok = True
@@ -1280,7 +1351,11 @@ def mon_C10_me(case):
             # back): the announcement makes every contact's `me` accept it, whatever the contact's own standing is (known finding)
             enby = what == "on" and w[0] in ("mesub", "mesetsub") and case.sess.get(w[1], {}).get("user") == src and \
                 any(s2 == w[1] and f2.startswith("ctrl 200 me acs=") for s2, f2 in ln.meframes)
-            modes, known, givens = _sub_modes((ln, pre), topic, u, chan)
+            lns = (ln, pre)
+            if case.cross.get(i) == "exit":
+                # a topic which was shut down a few steps ago winds up: its subscribers are those it had before the hub deleted it
+                lns = (ln, pre) + tuple(case.lines[k] for k in range(max(0, i - 16), i) if case.lines[k].plain is None and topic in case.lines[k].store)[-1:]
+            modes, known, givens = _sub_modes(lns, topic, u, chan)
             if not known and not chan:
                 # a channel reader whose record has just been dropped is addressed under the group's name: not a stranger
                 modes, known, givens = _sub_modes((ln, pre), topic, u, True)
@@ -1325,8 +1400,8 @@ def mon_C10_me(case):
             continue
         att_bg = [sid for sid in case.sess if bg.get(sid) and (ln.sess.get(sid) or ln.mesess.get(sid))]
         idle = [t for t, c in list(ln.cache.items()) + list(ln.me.items()) if not c["sess"]]
-        if att_bg or idle:
-            continue
+        if att_bg or idle or ln.held is not None:
+            continue            # (requests or timers are still in flight: activity has not settled)
         def visible(x):
             """the user is on `me` and lets others see it: the user's own subscription to `me` has presence permission"""
             mx = ln.me.get(x)
@@ -1406,6 +1481,17 @@ ME_REQS = ("mesub", "meleave", "mepub", "meget", "mesetsub")
 FND_REQS = ("fndsub", "fndleave", "fndpub", "fndget", "fndsetdesc", "fndsetsub")
 
 
+def evicted_meanwhile(case, i, w):
+    """a held {leave} which crossed with the session's eviction from that topic: the eviction notice alone may answer it"""
+    if case.cross.get(i) != "handled" or w[0] != "leave" or len(w) < 3:
+        return False
+    r = next((r for r in case.held_reqs if r["done"] == i), None)
+    if r is None:
+        return False
+    return any(sid == w[1] and f.startswith("ctrl 205 ") and f.split(" ")[2:3] == [w[2]]
+               for k in range(r["at"], i + 1) for sid, f in case.lines[k].frames)
+
+
 def silent_why(case, i, w, ln):
     """a request that got no reply at all: which recorded defect it is, or None"""
     act = case.actor(w)
@@ -1437,6 +1523,8 @@ def mon_C13(case):
         if ln.plain is not None or w[0] not in REQS:
             continue
         if not replied(ln, w[1]):
+            if evicted_meanwhile(case, i, w):
+                continue
             k = silent_why(case, i, w, ln)
             out.append((i, f"C13 {k}" if k else f"C13 request `{w[0]}` from {w[1]} was not answered"))
             continue
@@ -1455,8 +1543,25 @@ def mon_C14(case):
     out = []
     for i, (o, ln) in enumerate(zip(case.ops, case.lines)):
         w = o.split(" ")
+        if ln.plain == "blocked" and i > 0 and case.lines[i - 1].held is None and case.lines[i - 1].plain is None:
+            out.append((i, f"C14 [stuck-inflight] `{o}`: the session's only slot for a {{sub}} or {{leave}} is still taken by a request which nothing will "
+                           f"ever process: the session's read loop blocks here for good"))
+        if ln.plain == "hang":
+            out.append((i, f"C14 [cleanup-hang] `{o}`: the connection closed with a request in flight which nothing will ever process: Session.cleanUp "
+                           f"waits for it for ever, the session is never removed from its topics or from the registry"))
         if ln.plain is not None:
             continue
+        if ln.held is None:
+            for sid in sorted(ln.inflight):
+                out.append((i, f"C14 [stuck-inflight] after `{w[0]}` nothing is queued anywhere but session {sid} still has a request in flight: its next "
+                               f"{{sub}} or {{leave}} and its cleanup wait for ever"))
+            for r in case.held_reqs:
+                if r["done"] is None and r["at"] < i and case.cross.get(i) in ("settle", "exit", "xdrop") and not r.get("reported"):
+                    r["reported"] = True
+                    out.append((i, f"C14 [held-unanswered] {{{r['kind']}}} of {r['sid']} to {r['topic']} (request {r['at']}) was queued when the topic "
+                                   f"stopped and was never answered"))
+        if ln.held is not None:
+            continue            # "at quiescence": the clauses below are judged when nothing is in flight
         # a session lists a topic iff the topic lists the session
         for sid, tops in ln.sess.items():
             for t in tops:
@@ -1497,7 +1602,7 @@ def mon_C14(case):
             nrep = len([f for sid, f in ln.frames if sid == w[1] and f.startswith("ctrl ") and not f.startswith("ctrl 205 ")])
             if nrep > 1:
                 out.append((i, f"C14 request `{w[0]}` from {w[1]} was answered twice"))
-        if w[0] in ("sub", "leave", "deltopic", "delsub", "newgrp") and not replied(ln, w[1]):
+        if w[0] in ("sub", "leave", "deltopic", "delsub", "newgrp") and not replied(ln, w[1]) and not evicted_meanwhile(case, i, w):
             k = silent_why(case, i, w, ln)
             out.append((i, f"C14 {k}" if k else f"C14 request `{w[0]}` from {w[1]} was not answered"))
         if w[0] == "deluser" and w[1] in case.sess:
